@@ -128,10 +128,18 @@ def run(rep, tier, seed, model_ok=True, effort=1):
     update_runs(rep, impl, r, tier, effort)
     vcs_tag_runs(rep, impl, common.rng(seed, "c01-vcs"), tier, effort)
     if model_ok:
-        bad, errs = common.coq_eval("c01", HDR, "list N * list N * flags * option (option Z) * option (list N) * cli_res",
-                                    "fun '(o, p, fl, d, sv, e) => eqb_cli_res (test_cmd_v2 (%s) o p fl d sv) e" % cz(today), items, shard=100)
+        # What C01's theorems need from the tie: with --set-version (no increment rules involved) the whole command; on the
+        # increment path the GATE -- whenever the implementation exits 0, the model's gate accepts the announced version as a
+        # full match that is strictly greater, and the PEP 440 line is the model's normal form.  WHICH version the increment rules
+        # produce is C05's subject and is compared there in full.
+        chk = ("fun '(o, p, fl, d, sv, e) => match sv with "
+               "| Some _ => eqb_cli_res (test_cmd_v2 (%s) o p fl d sv) e "
+               "| None => match e with "
+               "  | Exit0 new pep => match is_valid_version_v2 (%s) p o new with GateOk => eqb_str (to_pep440 new) pep | _ => false end "
+               "  | ExitErr => true end end" % (cz(today), cz(today)))
+        bad, errs = common.coq_eval("c01", HDR, "list N * list N * flags * option (option Z) * option (list N) * cli_res", chk, items, shard=100)
         for i in bad:
-            rep.mismatch("bumpver test: model differs from implementation", input=meta[i])
+            rep.mismatch("bumpver test: model differs from implementation (gate / --set-version path)", input=meta[i])
         rep.corr_errors += errs
 
 
